@@ -98,6 +98,31 @@ Proof.
 Qed.
 Print Assumptions C14_bom_key_refuted.
 
+(* The two exclusions of [rt_fields] are necessary -- the model reproduces the known findings:
+   (a) parameter value (known finding rt-param-value): a={ [[p] v ] k=w } is written
+       `a={\n  [[p]\n  v]=k\n  w\n}` and re-parses to a different tape;
+   (b) object continuing as a value list: m={ a=1 x "y" } is written `m={\n  a=1\n}`: the tail is
+       dropped (write_object_core stops at the MixedContainer token; documented limitation). *)
+Definition pv_doc : doc :=
+  FCons (Field Unq [97] (Some Equal)
+    (VObject (FCons (ParamV [112] false [118]) (FCons (Field Unq [107] (Some Equal) (VScalar Unq [119])) FNil)) VNil)) FNil.
+Definition tail_doc : doc :=
+  FCons (Field Unq [109] (Some Equal)
+    (VObject (FCons (Field Unq [97] (Some Equal) (VScalar Unq [49])) FNil)
+             (VCons (VScalar Unq [120]) (VCons (VScalar Quo [121]) VNil)))) FNil.
+Theorem C14_exclusions_refuted :
+  (wf_doc pv_doc /\ nobom pv_doc = true /\
+   exists out w t', write_tape (tape_fuel (flatten pv_doc)) (mkcfg 32 2 false) (flatten pv_doc) = WOk w out /\
+     parse out = Ok (t', false) /\ length t' = 9%nat /\ length (flatten pv_doc) = 7%nat) /\
+  (wf_doc tail_doc /\ nobom tail_doc = true /\
+   exists out w t', write_tape (tape_fuel (flatten tail_doc)) (mkcfg 32 2 false) (flatten tail_doc) = WOk w out /\
+     parse out = Ok (t', false) /\ length t' = 5%nat /\ length (flatten tail_doc) = 8%nat).
+Proof.
+  split; (split; [reflexivity|]; split; [reflexivity|]; eexists; eexists; eexists;
+          split; [vm_compute; reflexivity|]; split; [vm_compute; reflexivity|]; split; reflexivity).
+Qed.
+Print Assumptions C14_exclusions_refuted.
+
 (* non-vacuity: a round-trippable document using every admitted construct
      [[!q] k = v ] a = { b = "x y" c ?= d } n = { p { 2 } r != s t = u } l { 1 { 3 } { } }
      h = rgb { 1 } "k" >= @[1 +2]
